@@ -314,7 +314,7 @@ class C14(fw.Property):
     coq_props = "Props/C14.v"
     gen_jobs = ["c14_message_id"]
     model_imports = ["Verif.Model.C14", "Verif.Model.C14refuse"]
-    quick_budget = 300
+    quick_budget = 200
     thorough_budget = 9000
     design_ref = "DESIGN.md section 15 (C14)"
     technique = ("Coq invariant + refinement proofs (FIFO queue per remote, release/failure trichotomy, frame) over an executable model of the "
@@ -329,7 +329,7 @@ class C14(fw.Property):
                   "every schedule: a held-back message has left its queue after `budget` progress steps of the exchange ahead (retransmission budget as measure), "
                   "hence eventually under the explicit fairness hypothesis `fair`. Round 5: server-side responders (incoming_requests, stoppers) are modelled: when an endpoint "
                   "fails every responder serving it is stopped (C14_dropped_response_stopped); the trichotomy, frame and liveness bound hold over step_ev/rrun for every "
-                  "remote that is not itself refused (C14_general_*); a refused notification raises TypeError in Pipe._add_event (open finding C14-R3, refutation witness).")
+                  "remote that is not itself refused (C14_general_*); no exception leaves the modelled code, responders' responses included (finding C14-R3, TypeError in Pipe._add_event on a refused notification, fixed by /repo 44c4a4c).")
     level_note = ("Trusted: Coq kernel + vm_compute; the hand-written models' correspondence with messagemanager.py/tokenmanager.py (sampled event scripts, "
                   "compared output-by-output and on the final dict contents); the virtual loop as ideal timer service. Not modelled: incoming requests "
                   "(dedup, piggy-back), multicast, shutdown, observe; 2^64 token wrap collisions. The release/drop/held trichotomy, the frame theorems and the liveness "
